@@ -47,8 +47,8 @@ PROPS = {
 
     "C01": {
         "module": "HctlProofs.Props.C01",
-        "extra_modules": ["HctlProofs.Lemmas.EntryPoints"],
-        "theorems": ["Hctl.C01.model_check_correct", "Hctl.C01.invalid_colour_excluded", "Hctl.evalPure_correct",
+        "extra_modules": ["HctlProofs.Lemmas.EntryPoints", "HctlProofs.Lemmas.DriverEnv"],
+        "theorems": ["Hctl.driver_premises", "Hctl.C01.model_check_correct", "Hctl.C01.invalid_colour_excluded", "Hctl.evalPure_correct",
                      "Hctl.C01.sat_EX", "Hctl.C01.sat_EG", "Hctl.C01.sat_AU", "Hctl.C01.sat_bind", "Hctl.C01.sat_jump",
                      "Hctl.C01.steady_selfloop", "Hctl.formulaeDirty_correct", "Hctl.C04.treesDirty_sound"],
         "ks": ["k7"],
@@ -325,15 +325,18 @@ PROPS = {
     },
     "C14": {
         "module": "HctlProofs.Props.C14",
-        "extra_modules": ["HctlProofs.Lemmas.EntryPoints"],
+        "extra_modules": ["HctlProofs.Lemmas.EntryPoints", "HctlProofs.Lemmas.ErrorClasses"],
         "theorems": ["Hctl.C14.no_panic_trees", "Hctl.C14.preprocessed_goodQ", "Hctl.C14.error_iff_plain",
                      "Hctl.C14.renameRec_plain", "Hctl.C07.rename_ok_iff", "Hctl.C14.no_panic_treesDirty",
-                     "Hctl.formulaeDirty_correct", "Hctl.extendedDirty_correct"],
+                     "Hctl.formulaeDirty_correct", "Hctl.extendedDirty_correct", "Hctl.C14.parseAll_error_iff",
+                     "Hctl.C14.error_iff", "Hctl.C14.extended_outcome", "Hctl.C14.plain_outcome"],
         "ks": ["o14", "k7"],
         "spec_tied": ["o14:eval ", "k7:eval "],
         "full": True,
-        "not_proved": 'the two key facts the cache theorem needs are now DERIVED from the canoniser model (keySem_holds: equal keys => equal canonical trees => the cached set renamed back denotes the other sub-formula; keyWild_holds), via canonChars_render (character-level canoniser = tree-level canonical form), render_injective and sat_renameVar. Remaining hypotheses (definitions, not axioms): CharsOK (facts about Rust character classes, checked against std by K1), CtxSC (context sets do not depend on the variable slots), the top-level unit does not constrain the variable slots, GraphAsync (a transition changes the state). The former hypothesis "keys of the duplicate map have at most one variable" is now a theorem too: mark_duplicates only inserts keys of depth-named, well-scoped sub-formulae with at most one variable (markDups_witness), and "at most one variable" is a property of the KEY (dups_le_one, via single_name_transfer); treesDirty_sound / extendedDirty_sound / no_panic_treesDirty are end-to-end statements with the real duplicate map' + "; stated for plain formulae (the extended case adds the clause 'missing context label' "
-                      "which the model checks in parseAll and the correspondence compares); panics inside the BDD / graph libraries "
+        "not_proved": 'the two key facts the cache theorem needs are now DERIVED from the canoniser model (keySem_holds: equal keys => equal canonical trees => the cached set renamed back denotes the other sub-formula; keyWild_holds), via canonChars_render (character-level canoniser = tree-level canonical form), render_injective and sat_renameVar. Remaining hypotheses (definitions, not axioms): CharsOK (facts about Rust character classes, checked against std by K1), CtxSC (context sets do not depend on the variable slots), the top-level unit does not constrain the variable slots, GraphAsync (a transition changes the state). The former hypothesis "keys of the duplicate map have at most one variable" is now a theorem too: mark_duplicates only inserts keys of depth-named, well-scoped sub-formulae with at most one variable (markDups_witness), and "at most one variable" is a property of the KEY (dups_le_one, via single_name_transfer); treesDirty_sound / extendedDirty_sound / no_panic_treesDirty are end-to-end statements with the real duplicate map' + "; both string entry points are covered: plain_outcome / extended_outcome say, for every list of strings (and every "
+                      "context of variable-independent sets), that the outcome is a result or an error value, and that it is an error "
+                      "exactly when some string fails tokenizer/parser/scoping/proposition/support validation or (extended) needs a "
+                      "label without a context set (parseAll_error_iff, error_iff); panics inside the BDD / graph libraries "
                       "and stack exhaustion on unbounded nesting are outside the model",
         "rule": "O14: every string entry point (plain/extended, raw/sanitised, unsafe_ex) under catch_unwind on random, "
                 "grammar-mutated and unicode strings, propositions named like spare BDD variables, arbitrary subsets of the context "
